@@ -101,7 +101,7 @@ def run(tier, seed, replay=None):
             stats["verdicts"][o[0]] += 1
             res.count(json.dumps(s, sort_keys=True) + "|" + ("NP" if v is sc.NP else json.dumps(v, sort_keys=True)),
                       nontrivial=len(s) >= 1)
-            if o[0] == "terr":
+            if o[0] == "terr" and v is not sc.NP:     # the no-value call is not a JSON value (C05's subject)
                 res.violation({"property": "C01", "kind": "oracle", "what": "value rejected with TypeError instead of the library's ValidationError: %s" % raw[1],
                                "schema": s, "values": [v], "replay": "./check C01 --replay <this file>"})
         if ob["kind"] == "crash":
